@@ -696,7 +696,11 @@ class Engine:
         return ast.literal_eval(m.globals[which])
 
     def ev_Tuple(self, node, p, fc):
-        return self.bind(self.ev_many(node.elts, p, fc), lambda q, vs: [Res(q, VTuple(vs))])
+        def mk(q, vs):
+            for v in vs:
+                self.policy_escape(q, v, 'put into a tuple')
+            return [Res(q, VTuple(vs))]
+        return self.bind(self.ev_many(node.elts, p, fc), mk)
 
     def ev_List(self, node, p, fc):
         def mk(q, vs):
@@ -704,6 +708,7 @@ class Engine:
                 return [Res(q, VList(z3.Empty(z3.SeqSort(I)), 'int'))]
             vs2 = []
             for v in vs:
+                self.policy_escape(q, v, 'put into a list')
                 if isinstance(v, VUnion):
                     raise Unsupported('list literal of unresolved union')
                 vs2.append(v)
